@@ -134,13 +134,34 @@ def default_feasible(ctx):
                '; '.join('default %s=%r reaches `%s` via %s' % (p, v, norm(node)[:60], ' -> '.join(tr)) for p, v, node, tr in hits),
                node=hits[0][2] if hits else fn)
     # create_path forwards its defaults unchanged to the constructor, so the constructor's defaults must be feasible with None
+    # create_path interpreted with a recording constructor: what it passes is bound to the constructor's own parameter list (positional or by keyword)
     cp = ctx.fn(INIT, 'create_path')
-    calls = calls_in(cp, 'ISMPath')
-    ctx.need(calls, 'create_path no longer constructs ISMPath')
-    c = calls[0]
-    fw = {k.arg: norm(k.value) for k in c.keywords}
-    ctx.ob('DEFAULT-FEASIBLE', INIT + '::create_path', 'gradientfxn, gradientkwargs, integratorfxn forwarded to the path constructor',
-           all(fw.get(k) == k for k in ('gradientfxn', 'gradientkwargs', 'integratorfxn')), str(fw), node=c)
+    init = ctx.fn(BP, 'BasePath.__init__')
+    pnames = [a.arg for a in init.args.args[1:]]
+    made = []
+
+    def ctor(*a, **k):
+        bound = dict(zip(pnames, a))
+        bound.update(k)
+        made.append(bound)
+        return 'PATH'
+    ev = SymEval(module_aliases(ctx.mod(INIT)))
+    ev.globals = {'ISMPath': ctor}
+    for style in ('ISM', 'improved_string_method'):
+        made.clear()
+        try:
+            r = [q for q in ev.run_fn(cp, ['COORD', 'EFN'], dict(gradientfxn='GFN', gradientkwargs='GKW', integratorfxn='IFN', style=style)) if q.done == 'return']
+        except (Opaque, WouldRaise) as e:
+            raise AnalysisError('create_path(style=%r): %s' % (style, e))
+        ok = len(r) == 1 and r[0].ret == 'PATH' and len(made) == 1 and made[0].get('coord') == 'COORD' and made[0].get('energyfxn') == 'EFN' and made[0].get('gradientfxn') == 'GFN' \
+            and made[0].get('gradientkwargs') == 'GKW' and made[0].get('integratorfxn') == 'IFN'
+        ctx.ob('DEFAULT-FEASIBLE', INIT + '::create_path', 'style %r: coordinates, energy function, gradient function, gradient settings and integrator all reach the path constructor\'s parameters of those names' % style, bool(ok),
+               str(made), node=cp, key='create_path forwards ' + style)
+    try:
+        acc = bool([q for q in ev.run_fn(cp, ['COORD', 'EFN'], dict(style='neb')) if q.done == 'return'])
+    except WouldRaise:
+        acc = False
+    ctx.ob('DEFAULT-FEASIBLE', INIT + '::create_path', 'an unknown style is refused', not acc, node=cp, key='create_path style')
     ctx.floor('DEFAULT-FEASIBLE', n, 5)
 
 
